@@ -1792,6 +1792,9 @@ func (tc *typechecker) checkExplicitConversion(expr *ast.Call) *typeInfo {
 	if t.IsFormatType() && tc.isMarkdown(arg.Type) && tc.isHTML(t.Type) {
 		ti := &typeInfo{Type: t.Type}
 		if arg.IsConstant() {
+			if tc.mdConverter == nil {
+				panic(tc.errorf(expr, "cannot convert %s (type %s) to type %s: no Markdown converter available", expr.Args[0], arg, t.Type))
+			}
 			var b bytes.Buffer
 			err := tc.mdConverter([]byte(arg.Constant.String()), &b)
 			if err != nil {
